@@ -1,20 +1,20 @@
 SPECIFICATION Spec
 CONSTANTS
-  Threads = {1, 2}
-  Prog <- ProgList3
+  Threads = {1, 2, 3}
+  Prog <- ProgRt1
   HashOf <- HashSame
-  InitKeys <- Init0
-  N0 = 2
+  InitKeys <- Init3
+  N0 = 4
   DCAP = 2
-  MaxNodes = 6
+  MaxNodes = 8
   MaxTabs = 1
   STRIDE = 1
   MAXRES = 100
   STAMPCHECK = TRUE
   ACSTAMPCHECK = TRUE
   TRAVOFF = 0
-  RETAINCHECK = TRUE
-INVARIANTS Linearizable NoDeadlock ResizeSafe QuiescentOK ReadersNeverBlock IterWeak GhostOK
+  RETAINCHECK = FALSE
+INVARIANTS RetainOK Linearizable NoDeadlock ResizeSafe QuiescentOK ReadersNeverBlock IterWeak GhostOK
 PROPERTY NeverShrinks
 VIEW view
 CHECK_DEADLOCK FALSE
